@@ -648,6 +648,81 @@ def ob_path(cfg, seed):
                    f"max f {stats['max_f']:.1e}, min D {stats['min_dissipation']:.1e}, non-converged points {stats.get('dead', 0)}", sub=stats["steps"] * 12)
 
 
+def ob_jacobian(cfg, seed):
+    """the local Jacobian (dr/du, dr/deps) returned by Behavior.__Jacobian is the derivative of Behavior.__Residual (Richardson finite differences) at flowing points of a seeded path."""
+    from EasyFEA.FEM._linalg import FeArray
+    b = make_behavior(cfg)
+    if b.layout.n == 0 or b._Behavior__eigen is not None:
+        raise Unsupported("no local Newton for this configuration")
+    b._tol = 1e-13
+    dim = cfg.get("dim", 3)
+    P = _paths(seed, 6 if dim == 3 else 3)
+    Ne, nPg, nstep, _ = P.shape
+    dt = 0.05
+    z = b.State_zeros(Ne, nPg)
+    nz = b.layout.n
+    has_y = cfg.get("surface") is not None
+    nu = nz + (1 if has_y else 0)
+    R, J_ = b._Behavior__Residual, b._Behavior__Jacobian
+    checked, worst = 0, 0.0
+    for k in range(1, nstep):
+        eps = FeArray.asfearray(P[:, :, k].copy())
+        try:
+            sig, C, znew, ok = b.Integrate(eps, z, dt)
+        except AssertionError as ex:
+            if "did not converge" in str(ex):
+                break
+            raise
+        ok = np.asarray(ok).astype(bool)
+        if k % 4 == 0:
+            eps6 = np.asarray(b.Compute_strain_6d(eps, z, dt))
+            u = np.zeros((Ne, nPg, nu))
+            u[..., :nz] = np.asarray(znew) - np.asarray(z)
+            flowing = np.zeros((Ne, nPg), dtype=bool)
+            if has_y:
+                A = b.layout.slots["p"]
+                u[..., nz] = u[..., A.start]
+                flowing = u[..., nz] > 1e-9
+            sel = ok & (flowing if has_y else np.ones((Ne, nPg), dtype=bool))
+            if sel.any():
+                Cm = b._C_e_pg(Ne, nPg)
+                ufe = FeArray.asfearray(u)
+                r, s_, N, dN = R(FeArray.asfearray(eps6), ufe, z, Cm, dt)
+                J, D = J_(ufe, z, N, dN, Cm, dt)
+                J, D = np.asarray(J), np.asarray(D)
+                h = 1e-6
+                Jfd, Dfd = np.zeros_like(J), np.zeros_like(D)
+                fd = lambda f, hh: (f(hh) - f(-hh)) / (2 * hh)
+                for j in range(nu):
+                    d = np.zeros(nu)
+                    d[j] = 1.0
+                    # the rate law is singular at zero flow: its column is differentiated with a step relative to the multiplier itself
+                    sc_j = np.where(sel, np.maximum(np.abs(u[..., nz]), 1e-12) * 1e3, 1.0)[..., None] if (has_y and j == nz and cfg.get("rate")) else 1.0
+                    f = lambda hh: np.asarray(R(FeArray.asfearray(eps6), FeArray.asfearray(u + hh * sc_j * d), z, Cm, dt)[0])
+                    col = (4 * fd(f, h / 2) - fd(f, h)) / 3
+                    Jfd[..., j] = col / sc_j if not np.isscalar(sc_j) else col
+                for j in range(6):
+                    d = np.zeros(6)
+                    d[j] = 1.0
+                    f = lambda hh: np.asarray(R(FeArray.asfearray(eps6 + hh * d), ufe, z, Cm, dt)[0])
+                    Dfd[..., j] = (4 * fd(f, h / 2) - fd(f, h)) / 3
+                # compare row-wise on the scale of each row (strain rows ~1, the yield row ~C)
+                for name, A_, B_ in (("dr/du", J, Jfd), ("dr/deps", D, Dfd)):
+                    sc = np.maximum(np.abs(B_).max(axis=-1, keepdims=True), 1.0)
+                    e = (np.abs(A_ - B_) / sc)[sel].max()
+                    worst = max(worst, float(e))
+                    if e > 1e-6:
+                        idx = np.unravel_index(np.argmax((np.abs(A_ - B_) / sc) * sel[..., None, None]), A_.shape)
+                        raise Refuted(f"{cfg_name(cfg)} step {k}: {name}[{idx[2]},{idx[3]}] = {A_[idx]:.6g}, finite differences of the residual give {B_[idx]:.6g} (slots {({str(kk): (v.start, v.stop) for kk, v in b.layout.slots.items()})})",
+                                      cex=dict(config=cfg, step=k, entry=[int(idx[2]), int(idx[3])]), signature=f"jacobian:{cfg_name(cfg)}", replay=dict(confirmed=True, rel_err=float(e)))
+                checked += int(sel.sum())
+        z = FeArray.asfearray(np.where(ok[..., None], np.asarray(znew), np.asarray(z)))
+        P[~ok, k:] = P[~ok, k - 1][:, None, :]
+    if checked == 0:
+        raise Unsupported("no flowing point reached")
+    return Verdict(DISCHARGED, backend="native: Jacobian vs Richardson finite differences of the residual", detail=f"{checked} points, worst {worst:.1e}", sub=checked)
+
+
 def ob_solvers(cfg, seed):
     from EasyFEA.FEM._linalg import FeArray
     b1, b2 = make_behavior(cfg, "auto"), make_behavior(cfg, "newton")
@@ -843,6 +918,11 @@ def build(tier, seed):
             obs.append(Ob(f"C19.path.{cfg_name(cfg)}" + (f".s{s}" if s else ""), ob_path, (cfg, seed + s), "X", (f"{BEH}::Behavior.Integrate", f"{BEH}::Behavior.__Flow", f"{BEH}::Behavior.__Spectral"),
                           bound="12 seeded strain paths of 35 steps (load / unload / reverse / turn)", clause="converged; f <= 0; d gamma >= 0; tr eps_p == 0; sigma:d eps - d psi >= 0; tangent == d sigma/d eps; sigma_zz == 0; pure",
                           timeout=3600))
+    for cfg in cfgs:
+        probe = make_behavior(cfg)
+        if probe.layout.n and probe._Behavior__eigen is None:
+            obs.append(Ob(f"C19.jacobian.{cfg_name(cfg)}", ob_jacobian, (cfg, seed + 2), "X", (f"{BEH}::Behavior.__Jacobian", f"{BEH}::Behavior.__Residual"), bound="flowing points of 12 seeded strain paths",
+                          clause="dr/du and dr/deps of the local solve == derivatives of its residual", timeout=1800))
     for cfg in [dict(surface="VonMises"), dict(surface="VonMises", hardening="Linear"), dict(surface="VonMises", hardening="Voce"), dict(surface="Hill", hardening="Linear"), dict(surface="Hill", hardening="Swift"),
                 dict(surface="VonMises", hardening="Linear", dim=2, planeStress=True), dict(surface="Hill", hardening="Voce", dim=2), dict(surface="VonMises", hardening="Linear", rate="Norton")]:
         obs.append(Ob(f"C19.solvers.{cfg_name(cfg)}", ob_solvers, (cfg, seed + 1), "X", ("EasyFEA/Models/InElastic/_spectral.py::Solve", f"{BEH}::Behavior.__Flow"), bound="12 seeded strain paths",
